@@ -439,6 +439,11 @@ func genReply(r *Rng, i int) ([]byte, int, []byte) {
 	return []byte(fmt.Sprintf("HTTP/1.1 %d %s\r\nX-Backend: b%d\r\nConnection: keep-alive\r\nKeep-Alive: timeout=5, max=%d\r\nSet-Cookie: s=%d\r\nSet-Cookie: t=%d\r\nContent-Length: %d\r\n\r\n%s", status, http.StatusText(status), i, 100+i, i, i+1, len(body), body)), status, body
 }
 
+func genReplyWith(r *Rng, i, status, n int) ([]byte, int, []byte) {
+	body := r.Bytes(n)
+	return []byte(fmt.Sprintf("HTTP/1.1 %d %s\r\nX-Backend: b%d\r\nConnection: keep-alive\r\nKeep-Alive: timeout=5, max=%d\r\nSet-Cookie: s=%d\r\nSet-Cookie: t=%d\r\nContent-Length: %d\r\n\r\n%s", status, http.StatusText(status), i, 100+i, i, i+1, len(body), body)), status, body
+}
+
 func runRelayHTTP(prefix string, reqs []hreq, wire []byte, segs [][]byte, lockstep bool, replies [][]byte, rstat []int, rbody [][]byte, splits []int) {
 	l := proxyLabGet()
 	line := segLine(prefix+" http", "", segs)
@@ -504,6 +509,10 @@ func runRelayHTTP(prefix string, reqs []hreq, wire []byte, segs [][]byte, lockst
 			if resp.StatusCode != rstat[k] || !bytes.Equal(body, wantBody) || resp.Header.Get("X-Backend") != fmt.Sprintf("b%d", k) || len(resp.Header["Set-Cookie"]) != 2 ||
 				resp.Header.Get("Keep-Alive") != fmt.Sprintf("timeout=5, max=%d", 100+k) || resp.Header.Get("Connection") != "keep-alive" {
 				viol("reply-changed", fmt.Sprintf("reply %d: backend sent status %d, %d body bytes; client got status %d, %d body bytes, headers %v", i, rstat[k], len(wantBody), resp.StatusCode, len(body), resp.Header))
+			}
+			// the length the backend declared (also in the reply to HEAD, which has no body to count)
+			if cl := resp.Header.Get("Content-Length"); cl != fmt.Sprint(len(rbody[k])) {
+				viol("reply-changed", fmt.Sprintf("reply %d to %s: backend declared Content-Length %d, the client got %q", i, reqs[i].method, len(rbody[k]), cl))
 			}
 		}
 		if n := l.eventsRemote(ca.String()); n != len(reqs) {
@@ -753,6 +762,25 @@ func genC15(tier string, seed uint64) {
 		for k := 0; k < 6; k++ {
 			runRelayHTTP(prefix, reqs, wire, cutAt(wire, []int{r.Intn(len(wire)), r.Intn(len(wire)), r.Intn(len(wire))}), false, replies, rstat, rbody, splits)
 		}
+	}
+	// every method against every reply shape (status 200/204/304/404/500, body sizes 0/1/large): HEAD replies declare
+	// the length of a body they do not carry, 204 and 304 carry none
+	for mi, m := range []string{"HEAD", "GET", "OPTIONS", "DELETE"} {
+		var reqs []hreq
+		var per [][]byte
+		for k := 0; k < 3; k++ {
+			q := genHReq(r, false)
+			q.method, q.body, q.chunked = m, nil, false
+			reqs = append(reqs, q)
+			per = append(per, q.wire(r))
+		}
+		var replies, rbody [][]byte
+		var rstat []int
+		for i := 0; i < 3; i++ {
+			rp, st, bd := genReplyWith(r, i, []int{200, 404, 500}[(i+mi)%3], []int{1, 4821, 0}[i])
+			replies, rstat, rbody = append(replies, rp), append(rstat, st), append(rbody, bd)
+		}
+		runRelayHTTP("@relay", reqs, flat(per), per, mi%2 == 0, replies, rstat, rbody, nil)
 	}
 	// bodies around the buffer sizes a relay might use, content-length and chunked
 	for _, n := range []int{4095, 4096, 4097, 32767, 32768, 32769, 65535, 65536} {
